@@ -483,8 +483,7 @@ stepLoop:
 			}
 		case <-deadline:
 			if out.status == "ok" || out.status == "div" {
-				fail("vio", "hang:after-close", "after Close %d of %d threads did not finish within %v", n-exited, n, watchdog)
-				out.status = "vio"
+				out.status, out.sig, out.detail = "vio", "hang:after-close", fmt.Sprintf("after Close %d of %d threads did not finish within %v", n-exited, n, watchdog)
 			}
 			cur = nil
 			return out
